@@ -73,6 +73,12 @@
 	#define kMaxTokenTypes	MMD6_VERIF_MAX_TOKEN_TYPES
 #endif
 #define kLargeStackThreshold 1000		//!< Avoid unnecessary searches of large stacks
+
+#if defined(MMD6_VERIF) && defined(MMD6_VERIF_LARGE_STACK_THRESHOLD)
+	// Verification hook: makes the large-stack short-circuit reachable with a handful of pending openers
+	#undef kLargeStackThreshold
+	#define kLargeStackThreshold	MMD6_VERIF_LARGE_STACK_THRESHOLD
+#endif
 #define kMaxPairRecursiveDepth 1000		//!< Maximum recursion depth to traverse when pairing tokens -- to prevent stack overflow with "pathologic" input
 
 
